@@ -190,7 +190,7 @@ pub fn enumerate_value(value: &ValueSpec, stats: &mut Stats, mut f: impl FnMut(&
         let out = execute(plan, None, stats);
         f(plan, out);
     };
-    let reader_deliveries = [Delivery::Reader, Delivery::BufReader(7), Delivery::EscapedReader];
+    let reader_deliveries = [Delivery::Reader, Delivery::BufReader(7), Delivery::EscapedReader, Delivery::InPlaceReader];
     let is_list = value.shape() != Shape::One;
     let knob_sets: Vec<Knobs> = {
         let mut k = vec![
@@ -329,7 +329,7 @@ pub fn enumerate_value(value: &ValueSpec, stats: &mut Stats, mut f: impl FnMut(&
             q.reads = vec![
                 ReadPlan { delivery: Delivery::Reader, sched: vec![] },
                 ReadPlan { delivery: Delivery::Value, sched: vec![] },
-                ReadPlan { delivery: Delivery::DeBorrowed, sched: vec![] },
+                ReadPlan { delivery: Delivery::InPlaceStr, sched: vec![] },
             ];
             exec(&q, stats, &mut f);
             n += 1;
